@@ -118,7 +118,10 @@ class _STIXBase(collections.abc.Mapping):
 
         created = self.get('created')
         modified = self.get('modified')
+        # (2.0 file/directory observables use the same names for file system
+        # times, which are unrelated to object versioning.)
         if (
+            not isinstance(self, _Observable) and
             isinstance(created, dt.datetime) and
             isinstance(modified, dt.datetime) and modified < created
         ):
